@@ -702,7 +702,7 @@ def make_wsgi_app(
     if capability_headers:
         middleware.append(_CapabilitiesMiddleware(capability_headers))
     app: falcon.App[falcon.Request, falcon.Response] = falcon.App(middleware=middleware or None)
-    app.set_error_serializer(_make_error_serializer(proxy_hint))
+    app.set_error_serializer(_make_error_serializer(proxy_hint, server.server_id))
 
     # OAuth well-known endpoint (must be before RPC routes)
     if _validated_oauth_metadata is not None:
